@@ -18,7 +18,11 @@ RULE = (
     "object, in all k! permutations, in all split points (fresh objects and sequentially on one object), with "
     "duplicates, and along all call sequences to depth d on one object (explicit-state BFS, state = hash of the object); "
     "buffered samplers additionally at batch sizes {1,2,8191,8192,8193,16385} split at {1,8191,8192,8193}; every input "
-    "array is compared before/after and the call is repeated with read-only arrays. Distinct by (stage, context kind, "
+    "array is compared before/after and the call is repeated with read-only arrays. Further: after calls the stage must REFUSE (one energy outside the table at every "
+    "position of the stage's own batch; a cloud lookup that fails at the first / middle / last event; a spectrum on a band of "
+    "zero width) the valid batch in three orders equals fresh objects; every multi-call context is repeated with every "
+    "returned array overwritten by the caller between calls; an object built after every table of a used object was "
+    "overwritten equals a fresh one. Distinct by (stage, context kind, "
     "mask-class signature)."
 )
 ASSUMPTIONS = [
